@@ -60,8 +60,6 @@ def phase_fixpoints(raw, opt):
         f2 = f1.fuse()
         if f2._name != f1._name:
             return "not_idempotent:fuse_phase_not_a_fixpoint", f"fuse(fuse(e)) is {f2._name}, fuse(e) is {f1._name}"
-        if opt is not None and f1._name != opt._name:
-            return "not_idempotent:optimize_not_deterministic", f"simplify+lower+fuse gives {f1._name}, optimize() gave {opt._name}"
     return None
 
 
